@@ -448,6 +448,18 @@ func (d *jdrv) NonTrivial(env *core.Env, b *core.Behaviour) bool {
 }
 
 func (d *jdrv) Signature(b *core.Behaviour, idx int, field string, exp, obs any) string {
+	if field == "panic" {
+		idx-- // the replayer reports the number of steps begun
+	}
+	if idx < 0 {
+		idx = 0
+	}
+	if idx >= len(b.Steps) {
+		idx = len(b.Steps) - 1
+	}
+	if field == "panic" {
+		return fmt.Sprintf("%s|panic", b.Steps[idx].Op())
+	}
 	s := b.Steps[idx]
 	if field == "ret" {
 		o := fmt.Sprint(obs)
